@@ -136,7 +136,7 @@ def agg(adt_suffix=None, variant=None, **fields):
 
 def index(base, idx):
     return lambda e: (isinstance(e, tuple) and ((e[0] == 'index' and base(e[1]) and idx(e[2])) or
-                      (e[0] == 'call' and e[1].endswith('::index') and len(e[2]) == 2 and base(e[2][0]) and idx(e[2][1]))))
+                      (e[0] == 'call' and (e[1].endswith('::index') or e[1].endswith('::index_mut')) and len(e[2]) == 2 and base(e[2][0]) and idx(e[2][1]))))
 
 
 def length(x):
